@@ -147,6 +147,7 @@ type Enc struct {
 	lazy     map[*ssa.Alloc]bool // heap-allocated local variables modelled as locals until their address escapes
 	cur      *cursor             // cursor of the instruction being encoded (for on-demand materialisation)
 	privSlice map[*ssa.Alloc]bool
+	renames  map[*ssa.Function]map[string]*ssa.Alloc
 	lazyRefs []Val               // pointers to not-yet-materialised locals parked in local pointer variables ("@lazy!<i>")
 }
 
